@@ -746,6 +746,7 @@ class _GzipMessageDelegate(httputil.HTTPMessageDelegate):
         # per-request set_max_body_size() also applies to the decoded body.
         self._connection = connection
         self._decompressed_body_size = 0
+        self._compressed_input_seen = False
         self._decompressor: GzipDecompressor | None = None
 
     def headers_received(
@@ -765,6 +766,8 @@ class _GzipMessageDelegate(httputil.HTTPMessageDelegate):
     async def data_received(self, chunk: bytes) -> None:
         if self._decompressor:
             compressed_data = chunk
+            if chunk:
+                self._compressed_input_seen = True
             while compressed_data:
                 decompressed = self._decompressor.decompress(
                     compressed_data, self._chunk_size
@@ -793,6 +796,10 @@ class _GzipMessageDelegate(httputil.HTTPMessageDelegate):
 
     def finish(self) -> None:
         if self._decompressor is not None:
+            if self._compressed_input_seen and not self._decompressor.eof:
+                # zlib's flush() does not complain about a stream that
+                # simply stops in the middle.
+                raise httputil.HTTPInputError("truncated gzip body")
             tail = self._decompressor.flush()
             if tail:
                 # The tail should always be empty: decompress returned
